@@ -143,7 +143,7 @@ type Obs struct {
 	Cut       bool   // the harness cancelled the context
 	Run       string // nil|canceled|limit|passes|noammo|other:<..>|noreturn
 	End       string // closed (every consumer saw ok=false / drain ended with ok=false) | blocked | spinning | open
-	Seq       string // ok | bad@k | badmulti | na
+	Seq       string // ok | bad@k | badmulti | na | tail (read-fault cells: all but the item sent last are the cyclic file)
 	Ops       int64  // Read+Seek calls on the ammo file
 	Ret       bool   // stall: Run returned (by itself or within two ticks of the cancel)
 	Left      int    // stall: ammo drained from the sink after Run returned
@@ -698,6 +698,51 @@ func seqVerdict(seq []int, n, cons int, complete bool) string {
 	return "ok"
 }
 
+// tailVerdict: for a cell with an injected read fault whose acquisitions are not the cyclic file: are they the cyclic
+// file but for ONE item, the last one sent?  (bufio.Scanner hands out the partial last line before it reports the read
+// error, and a truncated uri line is still a uri: the decoder delivers it, then fails.)  One consumer: the first d-1 in
+// order, the last one anything; several: as a multiset, one item anything.
+func tailVerdict(seq []int, n, cons int, complete bool) bool {
+	d := len(seq)
+	if n <= 0 || d == 0 {
+		return false
+	}
+	if cons <= 1 {
+		for k, id := range seq[:d-1] {
+			if id != k%n {
+				return false
+			}
+		}
+		return true
+	}
+	if !complete {
+		return false
+	}
+	cnt := make([]int, n)
+	odd := 0
+	for _, id := range seq {
+		if id < 0 || id >= n {
+			odd++
+			continue
+		}
+		cnt[id]++
+	}
+	for i := 0; i < n; i++ {
+		want := (d - 1) / n
+		if i < (d-1)%n {
+			want++
+		}
+		switch cnt[i] {
+		case want:
+		case want + 1:
+			odd++
+		default:
+			return false
+		}
+	}
+	return odd == 1
+}
+
 // Expected is min+(limit, passes*n); ok=false for an unbounded cell.  Only used to choose how long to wait.
 func Expected(limit, passes, n int) (int, bool) {
 	switch {
@@ -992,6 +1037,9 @@ func runDrain(e *env) Obs {
 	obs.Fired = e.io.fired.Load()
 	complete := !obs.Cut && obs.End == "closed"
 	obs.Seq = seqVerdict(append([]int(nil), seq...), c.N, cons, complete)
+	if c.RFail != 0 && strings.HasPrefix(obs.Seq, "bad") && tailVerdict(append([]int(nil), seq...), c.N, cons, complete) {
+		obs.Seq = "tail"
+	}
 	return obs
 }
 
